@@ -351,6 +351,10 @@ class Check:
                 return
         self.violations.append((key, what, path, found_input))
 
+    def has_failing_input(self):
+        """a NEW violation (not a listed known finding) with a concrete failing input was reported"""
+        return any(v[3] for v in self.violations)
+
     def finish(self):
         wall = time.time() - self.t0
         n_obl = len(self.obligations)
